@@ -18,8 +18,8 @@ def run(tier):
         p.args = ["--mode", "plans", "--classes", str(en.cls("STATUS", "PLANRESULT")), "--dev", "2", "--batch", "1"]
         p.label += "/plans"
     args = ["--tier", tier, "--dev", "2" if thorough else "1", "--batch", "2", "--classes", str(en.cls("REQ", "GUARD")),
-            "--dev-immediate", "1", "--imm-reduced", "1", "--deadline", str(1500 if thorough else 90)]
-    res = en.run_all(chk, "C14", progs + plan_progs, args, timeout=(2400 if thorough else 400))
+            "--dev-immediate", "1", "--imm-reduced", "1", "--deadline", str(en.TD if thorough else 90)]
+    res = en.run_all(chk, "C14", progs + plan_progs, args, timeout=(en.TD + 900 if thorough else 400))
     en.aggregate(chk, res, "C14")
     chk.coverage["explanation"] = (
         "Three payload types (int, struct{double;char}, alignas(16) struct) x generated programs: every request of the "
